@@ -1,4 +1,5 @@
 import FedjaxVerif.Model.FedData
+import FedjaxVerif.Model.Centralised
 import Mathlib.Data.List.Perm.Basic
 import Mathlib.Data.List.Nodup
 import Mathlib.Data.List.Lex
@@ -1159,5 +1160,68 @@ example := C08_all_equal_roots bytes_strictTotal List.length tabEx tabEx.reverse
 -- buffered shuffle: one pass is a permutation
 example : bufferedShuffle 3 (fun l => l.reverse) [0, 1, 2, 1] [0, 1, 2, 3, 4, 5, 6] = [2, 3, 1, 5, 4, 6, 0] := by
   decide
+
+
+/-! ## the two independently written models of `buffered_shuffle` agree
+
+`Model/FedData.lean` (written for C08) and `Model/Centralised.lean` (written for C15) each contain a
+model of `client_datasets.buffered_shuffle`.  They were written independently from the same source;
+the theorem below shows that they compute the same function whenever the buffer is non-empty
+(`buffer_size ≥ 1` and a non-empty source) — the only inputs on which they differ are those on which
+the real code raises `IndexError`. So `C15_bshuffle_perm` and `C08_shuffled_pass` speak about the same
+function. -/
+
+theorem swapStep_eq_swap0 {α} (B : Nat) (r i : α) (tl : List α) (s : Nat) :
+    swapStep B (r :: tl) s i =
+      (r, if s < B - 1 then Centralised.swap0 (i :: tl) s else i :: tl) := by
+  unfold swapStep
+  simp only
+  by_cases h : s < B - 1
+  · simp only [h, if_true]
+    congr 1
+    cases s with
+    | zero => simp [Centralised.swap0]
+    | succ s =>
+      simp only [Centralised.swap0, List.set_cons_succ, List.set_cons_zero, List.getD_cons_succ]
+      cases hx : tl[s]? with
+      | none =>
+        have hlen : tl.length ≤ s := by simpa using hx
+        simp [List.getD_eq_getElem?_getD, hx, List.set_eq_of_length_le hlen]
+      | some x => simp [List.getD_eq_getElem?_getD, hx]
+  · simp [h]
+
+theorem bshufLoop_models_agree {α} (B : Nat) (rest : List α) :
+    ∀ (buf : List α) (swaps : List Nat), buf ≠ [] →
+      bshufLoop B buf swaps rest = Centralised.bshufLoop B buf rest swaps := by
+  induction rest with
+  | nil => intro buf swaps _; simp [bshufLoop, Centralised.bshufLoop]
+  | cons i rest ih =>
+    intro buf swaps hne
+    cases buf with
+    | nil => exact absurd rfl hne
+    | cons r tl =>
+      simp only [bshufLoop, Centralised.bshufLoop]
+      rw [swapStep_eq_swap0]
+      simp only
+      congr 1
+      apply ih
+      by_cases h : swaps.headD 0 < B - 1
+      · simp only [h, if_true]
+        cases hs : swaps.headD 0 with
+        | zero => simp [Centralised.swap0]
+        | succ s =>
+          simp only [Centralised.swap0]
+          cases tl[s]? <;> simp
+      · rw [if_neg h]; simp
+
+/-- **Model reconciliation.** The C08 and the C15 model of `buffered_shuffle` are the same function on
+every input on which the real code does not raise (non-empty initial buffer or empty remainder). -/
+theorem C08_bshuffle_models_agree {α} (B : Nat) (shuf : List α → List α) (swaps : List Nat)
+    (src : List α) (h : shuf (src.take B) ≠ [] ∨ src.drop B = []) :
+    bufferedShuffle B shuf swaps src = Centralised.bufferedShuffle B shuf swaps src := by
+  unfold bufferedShuffle Centralised.bufferedShuffle
+  rcases h with h | h
+  · exact bshufLoop_models_agree B _ _ _ h
+  · rw [h]; simp [bshufLoop, Centralised.bshufLoop]
 
 end FedjaxVerif.FedData
